@@ -64,6 +64,7 @@ class Epoch:
         self.slots = {}
         self.nbuilt = 0
         self._paths = None
+        self.producer = opts.get('_producer', {})  # computation d -> RUNLOG entry of the run that wrote its result
         module_for(self.fam)
 
     # ---------------------------------------------------------------- helpers
@@ -232,6 +233,8 @@ class Epoch:
                         if d2 != d and t2 is t:
                             mm.append(('share', f'{node} of {rc} shares its object with a different computation'))
                     seen[d] = t
+        if self.opts.get('runinfo'):
+            mm.extend(self._check_runinfo(act, exp, real_runs))
         # -- directory: every computation of the family
         for d, ps in self.paths().items():
             kind = m.kind[m.slug(d)]
@@ -256,6 +259,108 @@ class Epoch:
         return mm
 
 
+def _py_repr(v):
+    """the persistence representation of a JSON-like parameter value (what run info must record)"""
+    if isinstance(v, str):
+        return "'" + v + "'"
+    if isinstance(v, list):
+        return '[' + ', '.join(_py_repr(x) for x in v) + ']'
+    if isinstance(v, dict):
+        return '{' + ', '.join(f"'{k}': {_py_repr(x)}" for k, x in sorted(v.items())) + '}'
+    return repr(v)
+
+
+def _runinfo_check(self, act, exp, real_runs):
+    """C18: run info and log of every visible result describe the run that produced it - the latest one."""
+    import yaml
+
+    m = self.model
+    mm = []
+    succ = list(exp['lastruns'][:-1] if exp['lasterr'] else exp['lastruns'])
+    entries = [e for e in gen.RUNLOG if not e['raised']]
+    known_all = {}
+    for sl in self.slots.values():
+        known_all.update(sl['objd'])
+    for e in gen.RUNLOG:  # the latest ATTEMPT per computation (a failed one rewrites the log, by design: "last run")
+        if known_all.get(e['obj']) is not None:
+            self.producer.setdefault('attempt', {})[known_all[e['obj']]] = e['seq']
+    if len(entries) == len(succ):
+        by_d = {}
+        known = {}
+        for sl in self.slots.values():
+            known.update(sl['objd'])
+        for e in entries:
+            d = known.get(e['obj'])
+            if d is not None:
+                self.producer[d] = e
+    for d, ps in self.paths().items():
+        if m.kind[m.slug(d)] == 'mem' or len(ps) != 1:
+            continue
+        p = Path(next(iter(ps)))
+        if not p.exists() or d not in self.producer or exp['disk'][m.keyof[d] - 1] == 0:
+            continue
+        e = self.producer[d]
+        latest_attempt_succeeded = self.producer.get('attempt', {}).get(d, e['seq']) == e['seq']
+        stem = p.name.split('.')[0]
+        label = f'{m.slug(d)}#{d}'
+        try:
+            info = yaml.safe_load((p.parent / f'{stem}.run_info.yaml').read_text())
+        except Exception as ex:  # noqa
+            mm.append(('runinfo', f'run info of {label} unreadable: {type(ex).__name__}: {ex}'))
+            continue
+        want_log = [{'rec': 0, 'run': e['seq']}, {'rec': 1, 'run': e['seq']}]
+        if info.get('log') != want_log:
+            mm.append(('runinfo', f"run info of {label} has records {info.get('log')}, the run that produced the stored "
+                                  f'result added {want_log}'))
+        if info.get('task', {}).get('name') != m.slug(d):
+            mm.append(('runinfo', f"run info of {label} names task {info.get('task')}"))
+        rc, node = m.rep(d)
+        vals = m.res[rc][node]['values']
+        tspec = next(t for t in self.fam['tasks'] if t['slug'] == m.slug(d))
+        want_params = {}
+        for prm in tspec['params']:
+            key = prm.get('name_in_config') or prm['name']
+            if prm.get('ignore'):
+                continue  # an ignored parameter may differ between the configurations sharing this result
+            want_params[prm['name']] = _py_repr(vals[key] if key in vals else prm.get('default'))
+        got_params = {k: v for k, v in (info.get('parameters') or {}).items() if k in want_params}
+        if got_params != want_params:
+            mm.append(('runinfo', f'run info of {label} records parameters {info.get("parameters")}, used were {want_params}'))
+        want_inputs = {}
+        for dep in m.res[rc][node]['deps']:
+            dd = m.did[(rc, dep)]
+            dps = self.paths().get(dd, set())
+            if len(dps) == 1 and next(iter(dps)) is not None:
+                want_inputs[dep.split('::')[-1]] = Path(next(iter(dps))).name.split('.')[0]
+        got_inputs = {k.split('::')[-1]: v for k, v in (info.get('input_tasks') or {}).items()}
+        if m.kind and want_inputs and got_inputs != want_inputs:
+            mm.append(('runinfo', f'run info of {label} records input keys {info.get("input_tasks")}, the inputs are stored '
+                                  f'under {want_inputs}'))
+        namespaces = {m.res[r][n]['ns'] for (r, n), dv in m.did.items() if dv == d}
+        if (info.get('config') or {}).get('namespace') not in namespaces:
+            mm.append(('runinfo', f"run info of {label} names namespace {(info.get('config') or {}).get('namespace')!r}, "
+                                  f'the computation is declared under {sorted(map(str, namespaces))}'))
+        if not latest_attempt_succeeded:
+            continue  # the log is that of the latest (failed) attempt; the property speaks of successful runs
+        try:
+            raw = (p.parent / f'{stem}.log').read_bytes()
+        except OSError as ex:
+            mm.append(('log', f'log of {label} unreadable: {ex}'))
+            continue
+        text = raw.decode('utf8', 'replace')
+        if 'run started' in text and 'run ended' not in text:
+            continue  # the latest attempt began (its inputs failed before the body ran) and did not finish: "last run"
+        lines = [l.split('USER ', 1)[1].strip() for l in text.splitlines() if 'USER ' in l]
+        want_lines = [f"{m.slug(d)} run#{e['seq']} m0", f"{m.slug(d)} run#{e['seq']} m1"]
+        if lines != want_lines or b'\x00' in raw:
+            mm.append(('log', f'log of {label} holds {lines}{" and NUL bytes" if b"\x00" in raw else ""}; the messages of the '
+                              f'run that produced the stored result are {want_lines}'))
+    return mm
+
+
+Epoch._check_runinfo = _runinfo_check
+
+
 def _child_epoch(model, base, work, opts, steps, carry):
     """Runs inside the forked child: execute steps until a Restart; returns (n_done, mismatches, samples)."""
     ep = Epoch(model, Path(base), Path(work), opts)
@@ -276,8 +381,8 @@ def _child_epoch(model, base, work, opts, steps, carry):
             mm = [(cat, f"{act['name']} raised {type(e).__name__}: {e}"), ('trace', tb[-1500:])]
         done += 1
         if mm:
-            return done, mm
-    return done, []
+            return done, mm, ep.producer
+    return done, [], ep.producer
 
 
 def _final_check(model, base, work, final_state):
@@ -316,7 +421,10 @@ def replay(model: Model, behaviour, opts=None, final=True, tag='b'):
         i = 0
         while i < len(behaviour):
             try:
-                done, mm = run_forked(_child_epoch, model, str(base), str(work), opts, behaviour[i:], None)
+                done, mm, producer = run_forked(_child_epoch, model, str(base), str(work), opts, behaviour[i:], None)
+                if opts.get('runinfo'):
+                    opts = dict(opts, _producer={d: ({k: v for k, v in e.items() if k in ('seq', 'slug')} if d != 'attempt' else e)
+                                                 for d, e in producer.items()})
             except ChildCrashed as e:
                 return dict(mismatches=[('error', f'interpreter died: {e}')], at=i, steps=len(behaviour))
             if mm:
